@@ -101,7 +101,7 @@ def run_history(ops, record):
         if path:
             import os
 
-            for suf in ("", "-journal"):
+            for suf in ("", "-journal", "-wal", "-shm"):
                 try:
                     os.unlink(path + suf)
                 except FileNotFoundError:
